@@ -169,6 +169,18 @@ def binop(cx, op: ast.operator, a, b):
             return a + b
     if isinstance(op, ast.Mod) and isinstance(a, str):
         return SOpaque("str")
+    if isinstance(a, SOpaque) and a.attrs.get("binop") is not None:
+        r = a.attrs["binop"](op, b)
+        if isinstance(r, str) and r == "raise":
+            raise PyRaise(SExc("Exception", opaque=True))
+        return r
+    from .values import SClass, SFunc
+
+    def _is_type(v):
+        return isinstance(v, SClass) or (isinstance(v, SFunc) and v.kind == "builtin" and v.name in ("int", "float", "str", "bytes", "bool", "list", "dict", "tuple", "set"))
+
+    if isinstance(op, ast.BitOr) and _is_type(a) and _is_type(b):
+        return SOpaque("UnionType", None, fresh=True)   # `float | int` builds a new types.UnionType object
     raise Unsupported(f"binop {type(op).__name__} on {type(a).__name__}, {type(b).__name__}")
 
 
@@ -297,6 +309,10 @@ def generic_eq(a, b):
             if r is not True:
                 acc.append(r.term)
         return SBool(z3.And(*acc)) if acc else True
+    if isinstance(a, SOpaque) and a.attrs.get("eq") is not None:
+        return a.attrs["eq"](b)
+    if isinstance(b, SOpaque) and b.attrs.get("eq") is not None:
+        return b.attrs["eq"](a)
     if isinstance(a, (SObj, SOpaque)) and isinstance(b, (SObj, SOpaque)):
         if a is b:
             return True
